@@ -291,6 +291,13 @@ class Ref:
             else:
                 # documented: may fail if it's not dead or suspended; nothing else changes
                 self.here("destroy", "false", E_INVALID_OP)
+        elif c == "close":
+            # a <close> handle goes out of scope: same as destroy, the result is dropped
+            k = a[0]
+            co = self.slots.get(k)
+            if co is not None and co.status in ("suspended", "dead"):
+                del self.slots[k]
+            self.here("close")
         elif c == "gc":
             self.here("gc")
         elif c == "end":
@@ -318,7 +325,5 @@ def run(script, gc=True, nslots=24):
     for i, cmd in enumerate(script):
         r.step(i, cmd.split())
     if not r.done:
-        # end of input = implicit end
-        r.out.append("> %d %s d%d" % (len(script), r.wname(r.who()), r.depth(r.who()))) if False else None
-        r.finish()
+        r.finish()    # end of input = implicit end
     return r.out
